@@ -1,11 +1,15 @@
 SPECIFICATION Spec
 CONSTANT Depth = 3
+CONSTANT Threads = {"main"}
+CONSTANT FuncSel <- AllFuncs
+CONSTANT AssignSel <- AssignValues
 CONSTANT DebugOn = TRUE
 INVARIANT Emit
 INVARIANT SwitchIsLastValid
 INVARIANT NeverRejectsValid
 INVARIANT OffMeansOff
 INVARIANT OnRejectsInvalid
+INVARIANT OneSwitchPerProcess
 PROPERTY InvalidAssignKeeps
 PROPERTY CallsKeepSwitch
 CHECK_DEADLOCK FALSE
